@@ -461,11 +461,12 @@ class C10(CreateProp):
     def cases(self, tier, rng):
         out = []
         g = 0
-        for sh, sizes, P in gen_trees(tier, rng, plens(tier), 120, 5000):
+        for n, (sh, sizes, P) in enumerate(gen_trees(tier, rng, plens(tier), 120, 5000)):
             for v, pair in ((2, ("TorrentAssembler", "TorrentFileV2")), (3, ("TorrentAssembler", "TorrentFileHybrid"))):
                 g += 1
                 for cr in pair:
-                    out.append({"creator": cr, "version": v, "P": P, "tree": mk_tree(sh, sizes),
+                    # (every third tree: zero runs at the head / tail / middle, repeated blocks, identical files)
+                    out.append({"creator": cr, "version": v, "P": P, "tree": mk_tree(sh, sizes, modes=modes_for(6 * (n // 3), sizes) if n % 3 == 0 else None),
                                 "group": "g%d" % g, "clauses": ["C10.creators"]})
         # no piece length given: every creator has to arrive at the same automatic choice - payload sizes just above
         # the thresholds 1000 * 2^e (where a floored quotient and a true quotient disagree) and well inside a step
@@ -482,6 +483,8 @@ class C10(CreateProp):
                 if s > 0:
                     out.append({"op": "hashers", "size": s, "P": P, "group": "none", "chdir_between": len(out) % 4 == 0,
                                 "clauses": ["C10.hashers", "C10.steps", "M10.impl"]})
+                    if s % B:       # the same size with zero runs: a short all-zero last block is not a full zero block
+                        out.append(dict(out[-1], mode=("ztail", "zeros", "zhead", "sparse")[len(out) % 4], chdir_between=False))
         for npc, tail in ((128, 0), (128, 1), (128, 5000), (129, 5000), (256, B), (257, B + 1), (128, 3 * B // 2), (64, 1), (512, 77)):
             out.append({"op": "hashers", "size": npc * 2 * B + tail, "P": 2 * B, "group": "none", "clauses": ["C10.hashers", "C10.steps"]})
         # hashers used directly on MiB-sized pieces / files (their read loops differ)
